@@ -2746,8 +2746,8 @@ static void build_stmt(WorkList *list, ScopeStack *scopes, ASTNode *stmt, int in
             build_expr(list, stmt->as.match_expr.expr, env);
             emit_literal(list, ";\n");
 
-            emit_indent_item(list, indent + 1);
-            emit_literal(list, "switch (_m.tag) {\n");
+            /* An if / else-if chain over the tag, not a C switch: a 'break' in an arm belongs to the
+             * loop around the match, and in a switch it would only leave the switch */
 
             for (int i = 0; i < stmt->as.match_expr.arm_count; i++) {
                 const char *variant_name = stmt->as.match_expr.pattern_variants[i];
@@ -2755,11 +2755,11 @@ static void build_stmt(WorkList *list, ScopeStack *scopes, ASTNode *stmt, int in
                 ASTNode *arm_body = stmt->as.match_expr.arm_bodies[i];
 
                 emit_indent_item(list, indent + 2);
-                emit_literal(list, "case nl_");
+                emit_literal(list, i == 0 ? "if (_m.tag == nl_" : "else if (_m.tag == nl_");
                 emit_literal(list, union_c_name);
                 emit_literal(list, "_TAG_");
                 emit_literal(list, variant_name);
-                emit_literal(list, ": {\n");
+                emit_literal(list, ") {\n");
 
                 int variant_field_count = 0;
                 if (udef) {
@@ -2808,8 +2808,6 @@ static void build_stmt(WorkList *list, ScopeStack *scopes, ASTNode *stmt, int in
                     }
                 }
 
-                emit_indent_item(list, indent + 3);
-                emit_literal(list, "break;\n");
                 emit_indent_item(list, indent + 2);
                 emit_literal(list, "}\n");
             }
@@ -2818,9 +2816,7 @@ static void build_stmt(WorkList *list, ScopeStack *scopes, ASTNode *stmt, int in
              * This tells the compiler that all variants are covered, avoiding
              * "control reaches end of non-void function" warnings on GCC */
             emit_indent_item(list, indent + 2);
-            emit_literal(list, "default: __builtin_unreachable();\n");
-            emit_indent_item(list, indent + 1);
-            emit_literal(list, "}\n");
+            emit_literal(list, stmt->as.match_expr.arm_count > 0 ? "else { __builtin_unreachable(); }\n" : "(void)_m;\n");
             emit_indent_item(list, indent);
             emit_literal(list, "}\n");
             break;
